@@ -323,6 +323,23 @@ def check(ctx, rep):
     from rules.props import c05
     rep.rule('R08.e', 'a hosted command registers the host\'s waker before it runs tasks or looks at its queues, so a wake from another thread is never lost', floor=3)
     c05.check_register_before_look(rep, 'R08.e', core)
+    # R08.f: resuming a request over the bridge is one atomic step with respect to other threads: the lookup of the entry, its
+    # resolution and its removal all happen inside ONE region of the registry lock, and nothing swaps a placeholder into the registry
+    # (a second response for the same id arriving in between would see the wrong state)
+    from rules.props import c09
+    rep.rule('R08.f', 'the bridge registry looks up, resolves and removes an entry within one lock region; resolver state is written only by its own resolve', floor=3)
+    res = c06.method(core, 'crux_core::bridge::registry::ResolveRegistry', 'resume')
+    if res is None:
+        rep.missing('R08.f', 'ResolveRegistry::resume')
+    else:
+        regions = c03.lock_regions(res, ['std::sync::poison::mutex::Mutex::lock'])
+        ops = [bb for bb, t in res.calls('slab::Slab::get_mut', 'slab::Slab::get', 'slab::Slab::remove', 'slab::Slab::try_remove',
+                                         'crux_core::bridge::request_serde::ResolveSerialized::resolve')]
+        ok = len(regions) == 1 and len(ops) >= 3 and all(b in regions[0][3] for b in ops)
+        rep.expect('R08.f', ok, 'resume|one-lock-region', 'lookup, resolve and remove lie in the single region of the registry lock',
+                   'ResolveRegistry::resume: the lookup, the resolution and the removal of an entry are not inside one region of the registry lock '
+                   '(%d lock region(s)): a concurrent response for the same id can interleave' % len(regions))
+    c09.check_entry_writers(rep, 'R08.f', core)
     rep.assume('Arc drop decrements the strong count with Release; an Acquire fence after reading the decremented count synchronises with it')
     rep.assume('user-supplied closures, futures and App::update are outside the lock-order graph')
 
